@@ -140,6 +140,26 @@ def run(ctx):
 
     # ------------------------------------------------------------------ R14.5
     r = ctx.rule("R14.5", "rewriting does not change a token's reported location: set_modified keeps the original length", "E-MIR", floor=2)
+    # an attribute location is only reported for bytes that are still the original ones: whoever rewrites
+    # Attribute.value / .name must also forget the recorded (name, value) start and the raw bytes
+    writers = {}
+    for fld in ("value", "name"):
+        for f2, bi, st in mir.field_writes("Attribute", fld):
+            if not mir.is_test_fn(f2) and f2.key != "Attribute::new":
+                writers.setdefault(f2.key, f2)
+    for k, f2 in sorted(writers.items()):
+        resets = {}
+        for fld in ("name_value_start", "raw"):
+            for f3, bi, st in mir.field_writes("Attribute", fld):
+                if f3 is f2:
+                    v = st["rv"]
+                    resets[fld] = (v.get("name") or "") if v["k"] == "agg" else (f3.deep(v["o"]).split("{")[0] if v["k"] == "use" else v["k"])
+        key = k + "|forgets-location"
+        r.inst(key, sample={"mutator": k, "resets": resets})
+        if not str(resets.get("name_value_start", "")).endswith("Option::None"):
+            r.violate(key, f"{k} rewrites an attribute's value/name but keeps its recorded source start (name_value_start = {resets.get('name_value_start')}): value_source_location() then reports old start + new length, a range that is not the value's bytes and can run past the tag", f2.loc())
+    if not writers:
+        raise EngineError("R14.5: no mutator of Attribute.value found (anchor moved)")
     f = mir.fn("Spanned::set_modified")
     ag = [st for b in f.blocks for st in b["stmts"] if st["k"] == "assign" and st["rv"]["k"] == "agg" and st["rv"]["name"].endswith("RawBytes::Modified")]
     r.inst("set_modified|len")
